@@ -200,3 +200,12 @@ package haproxy
 //@   loop 3 invariant grow:  blockSize == max(back.Dynamic.BlockSize, 1) && back.Dynamic.DynUpdate
 //@   loop 4 invariant fill:  blockSize == max(back.Dynamic.BlockSize, 1) && back.Dynamic.DynUpdate && 0 <= i && i <= newFreeSlots && (len(back.Endpoints) + newFreeSlots - i) % blockSize == 0
 //@ end
+
+// ---------------------------------------------------------------------------
+// C03 — HTTPS lookups exist only for hosts with TLS that are not ssl-passthrough
+
+//@ func (*config).WriteFrontendMaps
+//@   props C03
+//@   at call AddHostnamePathMapping#2 assert https-needs-tls: host.HasTLS() && !host.SSLPassthrough() && $arg1 == host.Hostname && $arg3 == path.Backend.ID
+//@   at call AddHostnamePathMapping#3 assert http-own-host:   $arg1 == host.Hostname && $arg2 == path
+//@ end
